@@ -5,7 +5,7 @@ name, prop, out, needs, ran = sys.argv[1:6]
 d = f"/verif/seeded/{name}"
 os.makedirs(d, exist_ok=True)
 for f in os.listdir(out):
-    if f.endswith(".log"):
+    if f.endswith(".log") or os.path.isdir(os.path.join(out, f)):
         continue
     shutil.copy(os.path.join(out, f), os.path.join(d, f))
 meta = {"name": name, "property": prop, "needs_to_manifest": needs, "confirmed": ran,
